@@ -100,6 +100,9 @@ func tieDump(rr *core.Rand) *gen.Dump {
 	fn := gen.Sym{Pkg: rr.Pick([]string{"main", "net/http", "example.com/srv"}), Name: "(*conn).serve"}
 	file := "/src/app/server.go"
 	byCreator := rr.Chance(1, 3)
+	// a third kind of tie: the same function, directory/file name and line under different roots (two checkouts,
+	// a vendored copy) - different buckets that compare equal
+	byRoot := !byCreator && rr.Chance(1, 3)
 	nptr := rr.Intn(6)
 	for b := 0; b < nb; b++ {
 		for k := 0; k < per; k++ {
@@ -109,7 +112,12 @@ func tieDump(rr *core.Rand) *gen.Dump {
 				args = gen.Args{Vals: []gen.Arg{{Value: 7}}}
 				g.Creator = &gen.Creator{Sym: gen.Sym{Pkg: "main", Name: fmt.Sprintf("spawn%d", b)}, File: "/src/app/main.go", Line: 10}
 			}
-			g.Frames = []gen.Frame{{Sym: fn, Args: args, File: file, Line: 100, PCOff: 0x1d}, {Sym: gen.Sym{Pkg: "main", Name: "loop"}, File: "/src/app/main.go", Line: 50, PCOff: 0x2}}
+			f := file
+			if byRoot {
+				args = gen.Args{Vals: []gen.Arg{{Value: 7}}}
+				f = fmt.Sprintf("/checkout%d%s", b, file)
+			}
+			g.Frames = []gen.Frame{{Sym: fn, Args: args, File: f, Line: 100, PCOff: 0x1d}, {Sym: gen.Sym{Pkg: "main", Name: "loop"}, File: "/src/app/main.go", Line: 50, PCOff: 0x2}}
 			d.Gs = append(d.Gs, g)
 		}
 	}
